@@ -104,6 +104,11 @@ pub fn workspaces(tier: Tier, mut f: impl FnMut(LspWs) -> bool) {
     for skip in 0..B_ITEMS.len() {
         b_variants.push(B_ITEMS.iter().enumerate().filter(|(i, _)| *i != skip).map(|(_, s)| *s).collect());
     }
+    // b includes the root back (a cycle through the document the editor holds): the include walk reaches the
+    // edited document again
+    let mut cyclic = B_ITEMS.to_vec();
+    cyclic.push("include \"a.td\"");
+    b_variants.push(cyclic);
     let n = A_ITEMS.len();
     let max_len = tier.pick(2, 3);
     let mut word = Vec::new();
@@ -137,7 +142,12 @@ pub fn workspaces(tier: Tier, mut f: impl FnMut(LspWs) -> bool) {
                             }
                         }
                         // the units differ on lines with non-ASCII text only: every client list there, no list elsewhere
-                        for client_encodings in 0..if nonascii { CLIENT_ENCODINGS.len() } else { 1 } {
+                        let lists: &[usize] = match (nonascii, tier) {
+                            (false, _) => &[0],
+                            (true, Tier::Quick) => &[0, 1, 3],
+                            (true, Tier::Thorough) => &[0, 1, 2, 3, 4],
+                        };
+                        for &client_encodings in lists {
                             let ws = LspWs { files: vec![("a.td".into(), ta.clone()), ("b.td".into(), tb.clone()), ("c é😀.td".into(), "class Cx;\n".into())], client_encodings };
                             if !f(ws) {
                                 return;
@@ -397,8 +407,8 @@ impl Engine for C09 {
 
     fn rule(&self, tier: Tier) -> String {
         format!(
-            "three-file workspaces: root a.td = prologue + include \"b.td\" + include of a file whose name has a blank and non-ASCII letters + every sequence of 1..={} of {} statements that use b's declarations; b.td = a longer, differently-lined prologue + all {} declarations or all but one; \
-             x {{ASCII, 'é😀' before every statement and inside a string}} x {{LF, CRLF}} x {{a client that lists no position encodings; in the non-ASCII half also [utf-8, utf-16], [utf-16, utf-8], [utf-32, utf-16], [utf-16]}} x {{no byte order mark; for one-statement roots also a mark at the start of b, of a, of both (and of the third file)}} x {{complete, or ending in an unterminated statement whose last token touches the end of the text (both files)}}; the root is opened in the real server (framed JSON-RPC over an in-memory pipe) and, one message at a time, \
+            "three-file workspaces: root a.td = prologue + include \"b.td\" + include of a file whose name has a blank and non-ASCII letters + every sequence of 1..={} of {} statements that use b's declarations; b.td = a longer, differently-lined prologue + all {} declarations, or all but one, or all and an include of the root back (a cycle through the edited document); \
+             x {{ASCII, 'é😀' before every statement and inside a string}} x {{LF, CRLF}} x {{a client that lists no position encodings; in the non-ASCII half also [utf-8, utf-16], [utf-32, utf-16] (thorough: and [utf-16, utf-8], [utf-16])}} x {{no byte order mark; for one-statement roots also a mark at the start of b, of a, of both (and of the third file)}} x {{complete, or ending in an unterminated statement whose last token touches the end of the text (both files)}}; the root is opened in the real server (framed JSON-RPC over an in-memory pipe) and, one message at a time, \
              definition and references at the start and middle of every identifier of both files, documentSymbol, foldingRange, documentLink, inlayHint(whole file) per file and the published diagnostics are compared (the syntax errors of each file's own text, parsed independently, must be among the diagnostics published for that file); finally the root is edited so that every byte offset stays and every line number moves, and the diagnostics the client then holds are compared again. \
              non-trivial = every workspace (each has cross-file locations); distinct by construction.",
             tier.pick(2, 3),
